@@ -42,6 +42,11 @@ def monitor1(ctx, hooks, rng):
         if len(fam) < 2:
             return
         ctx.count("m1", "prefused-extent-families")
+    elif r_ < 0.22:
+        fam = c15ops.hash_twin_family(sr, rng)
+        if len(fam) < 2:
+            return
+        ctx.count("m1", "hash-twin-families")
     elif r_ < 0.3:
         fam = c15ops.nested_chain_family(sr, rng)
         fam = [(t, x) for t, x in fam if t.endswith("depth2")] if rng.random() < 0.5 else fam
